@@ -134,7 +134,14 @@ def build(cfg):
         else:
             w = data
             fn = (lambda w: (lambda s, pos: (len(w), '\\C' + str(len(w))) if s.startswith(w, pos) else None))(w)
-            real.append(UnicodeToLatexConversionRule(RULE_CALLABLE, fn, replacement_latex_protection=rs))
+            if len(w) % 2 == 0:
+                # documented variant: a rule callable that accepts the encoder object as `u2lobj`
+                def fn_u2l(s, pos, u2lobj, _fn=fn):
+                    assert isinstance(u2lobj, UnicodeToLatexEncoder)
+                    return _fn(s, pos)
+                real.append(UnicodeToLatexConversionRule(RULE_CALLABLE, fn_u2l, replacement_latex_protection=rs))
+            else:
+                real.append(UnicodeToLatexConversionRule(RULE_CALLABLE, fn, replacement_latex_protection=rs))
             model.append(('callable', fn, rs))
     return real, model
 
